@@ -256,7 +256,22 @@ JudgeFault(sc, d, w0, w1, r) ==
 \* transports addressed directly (C06, C07, C20)
 First16(q) == IF Len(q) <= 16 THEN q ELSE SubSeq(q, 1, 16)
 
+\* A repeat count of 2^31 pixels or more (a legal u32; TLC's integers end there, so the count stays in its two
+\* 16-bit halves).  The recording ends when the call has used its operation budget, far below count * N words: a
+\* correct transport is then still sending the pattern (res = "budget"); returning early, Ok or by panic, means that
+\* not every pixel was sent.
+HugeRepeat(r) == r.name = "xport.send_repeated_pixel" /\ r.args.count[1] >= 32768
+JudgeHuge(sc, w0, w1, r) ==
+  LET P == IF sc.cfg.iface = "spi" THEN {"C06"} ELSE {"C07"}
+      got == SubSeq(w1.ctl.burst, Len(w0.ctl.burst) + 1, Len(w1.ctl.burst))
+      pat == r.args.pixel
+  IN Chk(r.res = "budget", r, P, "repeat count >= 2^31: the call ended before count * N words were sent: " \o r.res \o " " \o r.pmsg \o " " \o r.ploc)
+     \o Chk(\A i \in 1 .. Len(got) : got[i] = pat[((i - 1) % Len(pat)) + 1], r, P,
+            "repeat count >= 2^31: the words on the bus are not the repeated pixel")
+     \o Chk(\A i \in 1 .. Len(w1.cmds) : w1.cmds[i].op = -1, r, P, "a command byte (D/C low) appeared inside pixel data")
+
 JudgeXport(sc, w0, w1, r) ==
+  IF HugeRepeat(r) THEN JudgeHuge(sc, w0, w1, r) ELSE
   LET cfg == sc.cfg  n == r.name  a == r.args  c == w1.ctl  cm == w1.cmds
       P == IF cfg.iface = "spi" THEN {"C06"} ELSE {"C07"}
       isSpi == cfg.iface = "spi"
